@@ -7,6 +7,15 @@ HERE = os.path.dirname(os.path.dirname(os.path.abspath(__file__)))
 
 # id -> (level category, technique, level text, level note, design ref)
 CHECKS = {
+    'C17': ('exploration', 'reference-model monitor + class invariant wrapped onto TextBlock at run time',
+            'Held on the generated contents of the run: every TextBlock/chunk/cond_chunk/trim result equals an independent '
+            'flattener and line splitter; the no-line-break invariant is evaluated after every public TextBlock call.',
+            'Reference semantics in vlib/textref.py written from the property text; contents of empty strings only are not judged for chunk().',
+            'DESIGN.md section 3 C17'),
+    'C18': ('exploration', 'reference-model monitor: direct specification of the indenter vs Indentizer/TextBlock.indent',
+            'Held on the generated line lists x indenter configurations of the run; each output line is compared with the specification.',
+            'Glyph domain: >=1 non-whitespace characters; bullet-mode lines compared modulo trailing whitespace, never gaining any.',
+            'DESIGN.md section 3 C18'),
     'C05': ('exploration', 'reference-model monitor: IR -> JSON -> real parser -> field-wise unparser == IR expectation',
             'Held on the generated documents of the run (hundreds quick, tens of thousands thorough); every '
             'container of FileContents is compared entry by entry against a model that never passed through dznpy.',
